@@ -409,6 +409,17 @@ pub fn ntru_gen(
     loop {
         let f = gen_poly(n, rng);
         let g = gen_poly(n, rng);
+
+        // the secret key format stores f and g in fixed-width fields
+        let fg_limit = 1i16 << (max_fg_bits(n) - 1);
+        if f
+            .coefficients
+            .iter()
+            .chain(g.coefficients.iter())
+            .any(|c| c.abs() >= fg_limit)
+        {
+            continue;
+        }
         #[cfg(feature = "verif-hooks")]
         crate::verif_hooks::trace_i16s("keygen.candidate", &f.coefficients, &g.coefficients);
 
@@ -430,6 +441,15 @@ pub fn ntru_gen(
         if let Some((capital_f, capital_g)) =
             ntru_solve_entrypoint(f.map(|&i| i as i32), g.map(|&i| i as i32))
         {
+            // ... and F (and G, as in the reference implementation) in 8-bit fields
+            if capital_f
+                .coefficients
+                .iter()
+                .chain(capital_g.coefficients.iter())
+                .any(|c| c.abs() > 127)
+            {
+                continue;
+            }
             #[cfg(feature = "verif-hooks")]
             crate::verif_hooks::emit(
                 "keygen.solved",
@@ -451,6 +471,17 @@ pub fn ntru_gen(
         }
         #[cfg(feature = "verif-hooks")]
         crate::verif_hooks::trace_tag("keygen.reject.unsolvable");
+    }
+}
+
+/// Number of bits the secret key encoding reserves for a coefficient of f or g
+/// (same table as the reference implementation).
+fn max_fg_bits(n: usize) -> usize {
+    match n {
+        1024 => 5,
+        256 | 512 => 6,
+        64 | 128 => 7,
+        _ => 8,
     }
 }
 
